@@ -238,6 +238,33 @@ func (c *Ctx) INT1(rule string) []report.Obligation {
 func (c *Ctx) ERRRET(rule string) []report.Obligation {
 	var out []report.Obligation
 	if f := c.P.Func("dotenv.(*parser).extractVarValue"); f != nil {
+		// the scan of a quoted value may be a step of extractVarValue: the function (extractVarValue itself, or one it
+		// calls in package dotenv) whose loop compares a byte of the source
+		scans := func(g *ssa.Function) bool {
+			gi := prog.Info(g)
+			for _, b := range g.Blocks {
+				if !gi.InLoop(b) {
+					continue
+				}
+				for _, in := range b.Instrs {
+					if bo, ok := in.(*ssa.BinOp); ok && (bo.Op == token.EQL || bo.Op == token.NEQ) && c.P.TypeStr(bo.X.Type()) == "uint8" {
+						return true
+					}
+				}
+			}
+			return false
+		}
+		if !scans(f) {
+			for _, cs := range callSites(f, func(com *ssa.CallCommon) bool {
+				cal := com.StaticCallee()
+				return cal != nil && cal.Blocks != nil && strings.HasPrefix(c.P.FuncID(cal), "dotenv.")
+			}) {
+				if g := cs.Common().StaticCallee(); scans(g) {
+					f = g
+					break
+				}
+			}
+		}
 		fi := prog.Info(f)
 		// returns after the quote loop carry an error; the successful return inside the loop needs char == quote && !escape
 		okAfter, okIn, nIn := true, true, 0
@@ -457,17 +484,29 @@ func (c *Ctx) CODEC(rule string) []report.Obligation {
 			out = append(out, anchorViolation(rule, id))
 			continue
 		}
+		// the marshaller, and the value-receiver helpers of the type it hands the list to (a shared sortedList())
+		scope := []*ssa.Function{f}
+		for _, cs := range callSites(f, func(com *ssa.CallCommon) bool {
+			cal := com.StaticCallee()
+			return cal != nil && c.P.InModule(cal) && cal.Blocks != nil && cal.Signature.Recv() != nil && types.Identical(cal.Signature.Recv().Type(), f.Signature.Recv().Type())
+		}) {
+			scope = append(scope, cs.Common().StaticCallee())
+		}
 		used := ""
-		for _, ci := range c.callsTo(f, "types.(HostsList).AsList") {
-			used, _ = prog.ConstString(ci.Common().Args[1])
+		for _, g := range scope {
+			for _, ci := range c.callsTo(g, "types.(HostsList).AsList") {
+				used, _ = prog.ConstString(ci.Common().Args[1])
+			}
 		}
 		out = append(out, verdict(used != "" && seps[used], rule, id+" :: separator understood by the decoder", c.P.Pos(f.Pos()),
 			fmt.Sprintf("renders with %q, the decoder splits on %v", used, sortedKeys(seps)), fmt.Sprintf("renders with %q, the decoder only splits on %v", used, sortedKeys(seps))))
 		// sorted before rendering (the list is built by ranging a map)
 		sorted := false
-		for _, ci := range callSites(f, func(com *ssa.CallCommon) bool { return isSortCall(com) }) {
-			_ = ci
-			sorted = true
+		for _, g := range scope {
+			for _, ci := range callSites(g, func(com *ssa.CallCommon) bool { return isSortCall(com) }) {
+				_ = ci
+				sorted = true
+			}
 		}
 		out = append(out, verdict(sorted, rule, id+" :: list sorted before rendering", c.P.Pos(f.Pos()), "sort call present", "the host list is rendered in map-iteration order"))
 	}
